@@ -7,6 +7,12 @@ ROOT = os.path.dirname(os.path.dirname(os.path.abspath(__file__)))
 
 # id -> (technique, level text, level note, design ref)
 CHECKS = {
+    "C01": (
+        "property-based testing (proptest genomes -> model zoo x states x directions); oracle: Ridders-extrapolated numerical derivative (with its own error estimate) of the next-lower-order public getter on neighbouring states; per-contribution localisation",
+        "Generated-input search over all 13 model families (equations of state and every functional as bulk model), shipped/perturbed/random parameter sets, 1-3 components and the whole (T, eta, x) box of the quantifier: 13 (T,V,N)-derivative getters of orders 1-3 and up to 7 caloric / fugacity-derivative getters per case are compared with numerical derivatives whose error estimate decides between conclusive and inconclusive. A mismatch is confirmed at two step sizes, localised to the contribution that disagrees and shrunk to a replay. Exploration: piecewise-smooth models are only tested away from their kinks.",
+        "Trusted: State::new_nvt/new_npt for neighbours (new_npt neighbours accepted only within 30 % of the centre density), the zeroth-order Helmholtz energy itself (a wrong A that is consistently differentiated is C08's business). Known finding masked by signature: ePC-SAFT T-derivatives with T-dependent sigma/k_ij. Verdict rule: inconclusive if err > 1e-5 S; violation iff |a-d| > max(50 err, 1e-6 S) (1e-5 S on constant-p paths).",
+        "DESIGN.md section 4, C01",
+    ),
     "C02": (
         "property-based testing (proptest genomes -> model zoo x states); oracle: algebraic identities on one state with per-contribution cancellation-safe scales + metamorphic (V,N)->(lV,lN) scaling relation",
         "Generated-input search: every run evaluates the Euler relation, the two Gibbs-Duhem forms, symmetry of dmu/dN, sum_i N_i dlnphi_i/dN_j = 0, the partial-molar sum rules and ~60 scaling relations on thousands of random (model, state, lambda) cases over all 13 model families; a violated identity is shrunk to a minimal replay. Exploration, not proof: absence of violations is only established on the cases generated.",
